@@ -60,7 +60,10 @@ def run_route(name: str, e, x, p, warm=()):
         obj = make()
         for q in warm:
             try:
-                use(obj, q)
+                if isinstance(q, tuple):
+                    e.at(q[1])          # ("elsewhere", point): the expression itself is evaluated by someone else in between
+                else:
+                    use(obj, q)
             except Exception:  # noqa: BLE001 - whatever happens there is not what is asked
                 pass
         return use(obj, p)
